@@ -133,6 +133,13 @@ T("C13", "valid-inline", PE, "        valid = self.service_status == SUCCESS or 
 T("C13", "offset-const", PE, "self.service_status = USINT.decode(self.raw[48:49])", "self.service_status = USINT.decode(self.raw[48 : 48 + 1])")
 
 # ------------------------------------------------------------------ C17
+M("C17", "generic-message-retry-same-packet", CD, "        response = self.send(request)\n        if not response:\n            self.__log.error(\"Generic message %r failed: %s\", name, response.error)", "        response = self.send(request)\n        if not response:\n            response = self.send(request)\n        if not response:\n            self.__log.error(\"Generic message %r failed: %s\", name, response.error)", ["D17.8"])
+M("C17", "tag-list-page-sent-in-a-retry-loop", LX, "                response = self.send(request)\n                if not response:\n                    raise ResponseError(", "                for _attempt in range(2):\n                    response = self.send(request)\n                    if response:\n                        break\n                if not response:\n                    raise ResponseError(", ["D17.8"])
+T("C17", "generic-message-response-renamed", CD, "        response = self.send(request)\n        if not response:\n            self.__log.error(\"Generic message %r failed: %s\", name, response.error)", "        reply = response = self.send(request)\n        if not reply:\n            self.__log.error(\"Generic message %r failed: %s\", name, response.error)")
+M("C11", "send-in-connection-size-pieces", CD, "            self._sock.send(message)\n", "            for _i in range(0, len(message), self.connection_size):\n                self._sock.send(message[_i : _i + self.connection_size])\n", ["D11.13"])
+M("C11", "send-swallows-socket-failure", CD, "            self._sock.send(message)\n        except Exception as err:\n            raise CommError(\"failed to send message\") from err", "            self._sock.send(message)\n        except Exception as err:\n            self.__log.error(\"failed to send message: %s\", err)", ["D11.13"])
+M("C15", "forward-close-extends-stored-route", CD, "        route_path = PADDED_EPATH.encode(\n            self._cfg[\"cip_path\"] + MSG_ROUTER_PATH, length=True, pad_length=True\n        )", "        route = self._cfg[\"cip_path\"]\n        route.extend(MSG_ROUTER_PATH)\n        route_path = PADDED_EPATH.encode(route, length=True, pad_length=True)", ["D15.16"])
+M("C19", "service-status-zero-named-success", "pycomm3/packets/util.py", "    return SERVICE_STATUS.get(status, f\"Unknown Error ({status:0>2x})\")", "    return SERVICE_STATUS.get(status, \"Success\" if status == 0 else f\"Unknown Error ({status:0>2x})\")", ["D19.5"])
 M("C17", "start-eq-stop", CD, "cycle(65535, start=1)", "cycle(65535, start=65535)", ["D17.1"])
 M("C17", "stop-70000", CD, "cycle(65535, start=1)", "cycle(70000, start=1)", ["D17.1"])
 M("C17", "no-increment", UT, "        yield val\n        val += 1", "        yield val", ["D17.1"])
@@ -348,8 +355,8 @@ T("C03", "bool-reordered", TAG, "return self.value is not None and self.error is
 T("C03", "return-shape-inverted", LX, "        if len(tags) > 1:\n            return results\n        else:\n            return results[0]", "        if len(tags) <= 1:\n            return results[0]\n        else:\n            return results")
 
 # ------------------------------------------------------------------ C04
-M("C04", "no-frag-fallback-read", LX, "            if return_size > self.connection_size:\n                request = ReadTagFragmentedRequestPacket.from_request(self._sequence, request)\n                fragmented_requests.append(request)\n            else:\n                read_requests.append((request, return_size))", "            read_requests.append((request, return_size))", ["D4.1"])
-M("C04", "compare-literal", LX, "                req_size = len(request.message)\n                if req_size > self.connection_size:", "                req_size = len(request.message)\n                if req_size > 4000:", ["D4.1", "D4.6"])
+M("C04", "no-frag-fallback-read", LX, "            if return_size + MULTISERVICE_READ_OVERHEAD > self.connection_size:\n                request = ReadTagFragmentedRequestPacket.from_request(self._sequence, request)\n                fragmented_requests.append(request)\n            else:\n                read_requests.append((request, return_size))", "            read_requests.append((request, return_size))", ["D4.1"])
+M("C04", "compare-literal", LX, "                req_size = len(request.message) + MULTISERVICE_READ_OVERHEAD\n                if req_size > self.connection_size:", "                req_size = len(request.message) + MULTISERVICE_READ_OVERHEAD\n                if req_size > 4000:", ["D4.1", "D4.6"])
 M("C04", "single-read-unbuilt", LX, "            request.build_message()\n\n            return_size = _tag_return_size(parsed_tag) + len(request.message)", "            return_size = _tag_return_size(parsed_tag) + len(request.message)", ["D4.7"])
 M("C04", "test-after-append", LX, "        for req, resp_size in read_requests:\n            if current_response_size + resp_size > self.connection_size:\n                current_group = []\n                grouped_requests.append(current_group)\n                current_response_size = MULTISERVICE_READ_OVERHEAD\n\n            current_group.append(req)\n            current_response_size += resp_size", "        for req, resp_size in read_requests:\n            current_group.append(req)\n            current_response_size += resp_size\n            if current_response_size + resp_size > self.connection_size:\n                current_group = []\n                grouped_requests.append(current_group)\n                current_response_size = MULTISERVICE_READ_OVERHEAD", ["D4.2", "D3.6"])
 M("C04", "reset-zero", LX, "                current_group = []\n                grouped_requests.append(current_group)\n                current_response_size = MULTISERVICE_READ_OVERHEAD\n\n            current_group.append(req)\n            current_response_size += resp_size", "                current_group = []\n                grouped_requests.append(current_group)\n                current_response_size = 0\n\n            current_group.append(req)\n            current_response_size += resp_size", ["D4.2"])
@@ -364,7 +371,9 @@ M("C04", "acc-adds-other", LX, "            current_group.append(req)\n         
 M("C04", "return-size-no-count", LX, "    size = size * tag_data[\"elements\"]\n", "", ["D4.7"])
 M("C04", "cont-on-success", LX, "                if response.service_status == INSUFFICIENT_PACKETS:\n                    offset += len(response.value_bytes)", "                if response.service_status == SUCCESS:\n                    offset += len(response.value_bytes)", ["D4.5"])
 M("C04", "ge-threshold-dropped", LX, "            if current_response_size + len(req.message) > self.connection_size:", "            if current_response_size > self.connection_size:", ["D4.2"])
-T("C04", "ge-instead-gt", LX, "            if return_size > self.connection_size:\n                request = ReadTagFragmentedRequestPacket.from_request(self._sequence, request)\n                fragmented_requests.append(request)", "            if return_size >= self.connection_size:\n                request = ReadTagFragmentedRequestPacket.from_request(self._sequence, request)\n                fragmented_requests.append(request)")
+M("C04", "read-alone-in-multi-overshoots", LX, "            if return_size + MULTISERVICE_READ_OVERHEAD > self.connection_size:", "            if return_size > self.connection_size:", ["D4.12"])
+M("C04", "write-alone-in-multi-overshoots", LX, "                req_size = len(request.message) + MULTISERVICE_READ_OVERHEAD\n", "                req_size = len(request.message)\n", ["D4.12"])
+T("C04", "ge-instead-gt", LX, "            if return_size + MULTISERVICE_READ_OVERHEAD > self.connection_size:\n                request = ReadTagFragmentedRequestPacket.from_request(self._sequence, request)\n                fragmented_requests.append(request)", "            if return_size + MULTISERVICE_READ_OVERHEAD >= self.connection_size:\n                request = ReadTagFragmentedRequestPacket.from_request(self._sequence, request)\n                fragmented_requests.append(request)")
 T("C04", "swap-compare", LX, "                if req_size > self.connection_size:\n                    request = WriteTagFragmentedRequestPacket.from_request(self._sequence, request)\n                    fragmented_requests.append(request)", "                if self.connection_size < req_size:\n                    request = WriteTagFragmentedRequestPacket.from_request(self._sequence, request)\n                    fragmented_requests.append(request)")
 
 # ------------------------------------------------------------------ C01
@@ -425,7 +434,8 @@ M("C18", "word-path-precedence", SLC, "                if tag[\"file_type\"] in 
 T("C18", "word-path-rewritten", SLC, "                if tag[\"file_type\"] in [\"T\", \"C\"] and bit_position in {\n                    PCCC_CT[\"PRE\"],\n                    PCCC_CT[\"ACC\"],\n                }:", "                if (bit_position == PCCC_CT[\"PRE\"] or bit_position == PCCC_CT[\"ACC\"]) and tag[\"file_type\"] in (\"C\", \"T\"):")
 M("C18", "read-pre-acc-any-file", SLC, "            if tag[\"file_type\"] in {\"T\", \"C\"}:\n                if bit_position == PCCC_CT[\"PRE\"]:", "            if tag[\"file_type\"] in {\"T\", \"C\", \"N\"}:\n                if bit_position == PCCC_CT[\"PRE\"]:", ["D18.7"])
 M("C03", "outer-status-short-circuit", LX, "                else:\n                    for resp in response.responses:\n                        req = resp.request", "                elif not response:\n                    for req in request.requests:\n                        results[req.request_id] = Tag(req.tag, None, None, response.error)\n                else:\n                    for resp in response.responses:\n                        req = resp.request", ["D3.7"])
-M("C03", "first-group-gate", LX, "        multi_requests = [\n            MultiServiceRequestPacket(self._sequence, group) for group in grouped_requests if group\n        ]\n\n        return multi_requests + fragmented_requests", "        if grouped_requests[0]:\n            multi_requests = [\n                MultiServiceRequestPacket(self._sequence, group) for group in grouped_requests\n            ]\n\n        return multi_requests + fragmented_requests", ["D3.6"])
+# (C03 first-group-gate removed: equivalent since fix ae12d36 - every request that reaches the grouping loop fits next to the overhead,
+# so the first group is empty only when there are no requests at all, and then both forms build nothing)
 M("C03", "no-empty-group-filter", LX, "MultiServiceRequestPacket(self._sequence, group) for group in grouped_requests if group\n        ]\n\n        return multi_requests + fragmented_requests", "MultiServiceRequestPacket(self._sequence, group) for group in grouped_requests\n        ]\n\n        return multi_requests + fragmented_requests", ["D3.6"])
 
 # D9.7 port-number confinement
